@@ -63,6 +63,12 @@ theorem TInv.execCmd_fst (hp : TInv ex w) (hlt : p < w.procs.size) (c : Cmd) : T
     · have : q ≥ w.procs.size := Nat.le_of_not_lt hq
       simp only [Sim.execCmd, this, if_true]
       exact hp
+  | timerAddOf q d sig =>
+    simp only [Sim.execCmd]
+    split
+    · exact hp
+    · rename_i hq
+      exact hp.timerAdd_fst q d sig (lt_of_running (by simpa [isRunning] using hq))
   | _ => simp only [Sim.execCmd] <;> tinv
 
 theorem evCancel_not_pending (w : World) (h : Nat) (hi : EvInv w.ev) : h ∉ keys (evCancel w h).1.ev.pending := by
